@@ -215,6 +215,7 @@ func c01OpRun3(c *Case, rng *Rng, binds []c01Bind3, opt c01Opt3, x0 []c01Ev, inj
 	_ = writeScript(filepath.Join(hooksDir, "hook.sh"), []byte(fmt.Sprintf(c01HookScript3, logDir)), 0o755)
 	_ = os.WriteFile(filepath.Join(logDir, "hold-all"), nil, 0o644)
 	fc := fake.NewFakeCluster(fake.ClusterVersionV121)
+	watchCount := c01CountWatches(fc)
 	nsThere := false
 	ensureNs := func() {
 		if nsThere {
@@ -230,10 +231,19 @@ func c01OpRun3(c *Case, rng *Rng, binds []c01Bind3, opt c01Opt3, x0 []c01Ev, inj
 		ensureNs()
 	}
 	truth := map[int]int{}
+	var settleNs func()
 	apply := func(es []c01Ev) bool {
-		if len(es) > 0 {
-			ensureNs() // lateNs: the first matching namespace appears together with its first objects
-		}
+		// lateNs: the first matching namespace appears together with its first objects. The objects are
+		// written first, then the Namespace, then the harness waits until the informers created for it
+		// have their watches: the fake cluster has no resource versions, a change made between the list
+		// and the watch of a new informer would be lost by the fake, not by the operator.
+		first := len(es) > 0 && !nsThere
+		defer func() {
+			if first {
+				ensureNs()
+				settleNs()
+			}
+		}()
 		for _, e := range es {
 			if err := c01OpObj(fc, ns, e); err != nil {
 				c.Inconcl = "cluster operation failed: " + err.Error()
@@ -269,6 +279,34 @@ func c01OpRun3(c *Case, rng *Rng, binds []c01Bind3, opt c01Opt3, x0 []c01Ev, inj
 	monOf := map[string]string{}
 	for _, kb := range hk.GetConfig().OnKubernetesEvents {
 		monOf[kb.BindingName] = kb.Monitor.Metadata.MonitorId
+	}
+	settleNs = func() {
+		stores := map[string]bool{}
+		for dl := time.Now().Add(5 * time.Second); time.Now().Before(dl); time.Sleep(2 * time.Millisecond) {
+			ok := true
+			for _, b := range binds {
+				mon := op.KubeEventsManager.GetMonitor(monOf[b.name])
+				if mon == nil {
+					continue
+				}
+				has := false
+				for _, inf := range kem.VerifC02Describe(mon) {
+					if inf.Namespace != ns {
+						continue
+					}
+					has = true
+					if !inf.Registered || inf.StoreID == "" {
+						ok = false
+						continue
+					}
+					stores[inf.StoreID] = true
+				}
+				ok = ok && has
+			}
+			if ok && watchCount(ns) >= len(stores) {
+				return
+			}
+		}
 	}
 	// state: does SOME informer of the binding pass events on (anyEn); is the whole binding unlocked —
 	// eventsEnabled set and every informer it has, static and per namespace, enabled (allEn); how many
@@ -997,9 +1035,13 @@ func runC01Operator3(r *Run) {
 		for i := 0; i < 3; i++ {
 			inject = append(inject, c01GenClusterOps(rng, live, &next, rng.Range(1, 2)))
 		}
+		liveBefore, nextBefore := map[int]int{}, next
+		for id, v := range live {
+			liveBefore[id] = v
+		}
 		after := c01GenClusterOps(rng, live, &next, rng.Range(0, 2))
 		if hold && !opt.v0 {
-			after = nil
+			after, live, next = nil, liveBefore, nextBefore
 			for i := rng.Range(1, 2); i > 0; i-- {
 				first := c01GenClusterOps(rng, live, &next, 1)
 				opt.evRounds = append(opt.evRounds, [2][]c01Ev{first, c01GenClusterOps(rng, live, &next, rng.Range(1, 2))})
